@@ -24,7 +24,7 @@ var lockBlockExceptions = map[string]string{
 func ruleLockBlock(c *Ctx) {
 	p := c.P
 	ci := p.Calls()
-	serial := p.serialLockVars()
+	serial, serialHolders := p.serialLocks()
 	for _, f := range p.Funcs {
 		li := p.Locks(f)
 		g := p.Graph(f)
@@ -79,7 +79,9 @@ func ruleLockBlock(c *Ctx) {
 					c.R.Except("R-LOCKBLOCK", cd.site, f.Name, construct, reason)
 					continue
 				}
-				if reason, ok := serial[v]; ok && (cd.class == "B" || cd.class == "C") {
+				// taken in this function's own region: only the designated holders are excused
+				designated := !li.may[cd.node][v] || serialHolders[v][f]
+				if reason, ok := serial[v]; ok && designated && (cd.class == "B" || cd.class == "C") {
 					c.R.Except("R-LOCKBLOCK", cd.site, f.Name, construct, "bounded wait under a serialisation lock: "+reason)
 					continue
 				}
